@@ -789,13 +789,13 @@ PROPS["C01"] = {
 
 PROPS["C08"] = {
     "modules": ["WhatIs.Props.C08"],
-    "theorems": ["WhatIs.C08.limits_in_force", "WhatIs.C08.read_capped", "WhatIs.C08.read_complete", "WhatIs.C08.cap_value",
+    "theorems": ["WhatIs.C08.limits_in_force", "WhatIs.C08.read_capped", "WhatIs.C08.truncation_seen", "WhatIs.C08.read_complete", "WhatIs.C08.cap_value",
                  "WhatIs.C08.ssh1_allocs_bounded", "WhatIs.C08.ssh1_alloc_total", "WhatIs.C08.unbounded_witness",
                  "WhatIs.C08.b64_decoded_bounded", "WhatIs.C08.asn1_nodes_bounded", "WhatIs.C08.asn1_depth_bounded",
                  "WhatIs.C08.rpm_header_bounded", "WhatIs.C08.rpm_refused", "WhatIs.C08.rpm_overlap_witness",
                  "WhatIs.C08.jks_stops_on_truncation", "WhatIs.C08.jks_field_within", "WhatIs.C08.jks_walk_steps_bounded",
                  "WhatIs.C08.jks_stuck_witness", "WhatIs.C08.pgp_bodies_bounded", "WhatIs.C08.pgp_framing_terminates"],
-    "facts": {"scan.makes": SCAN_MAKES, "limits.maxReadSize": 128000000, "limits.inspectReadsThroughLimit": True,
+    "facts": {"scan.makes": SCAN_MAKES, "limits.maxReadSize": 128000000, "limits.inspectReadsThroughLimit": True, "limits.inspectReadExtra": 1,
               "ssh1.boundsMPInt": True, "ssh1.boundsString": True, "rpm.prechecked": True, "jks.prechecked": True,
               "jks.stopsOnTruncation": True, "pgp.dsaSizeGuard": True, "armor.headerValueBounded": True},
     "nontrivial": nt_c01,
